@@ -256,6 +256,21 @@ def main():
     t0 = time.time()
     spec = vprops.PROPS[prop]
     jobs = spec["jobs"](tier)
+    if tier != "thorough":
+        # the quick tier concentrates on the configurations tagged "quick"; every other configuration of the same
+        # harness still gets a share (one worker, a sixth of the cases), so that no configuration is only ever run
+        # by the thorough tier (F28 and a false alarm of the C17 flush lived in such configurations)
+        rest = []
+        for j in jobs:
+            t = j.get("tag", "")
+            if "quick" in t.split("+") and not j.get("cfg"):
+                r = dict(j)
+                r["tag"] = "+".join(x for x in t.split("+") if x != "quick")
+                r["cases"] = max(1000, j["cases"] // 6)
+                r["workers"] = 1
+                r["rest_of_configurations"] = True
+                rest.append(r)
+        jobs = jobs + rest
     bins, err = build_all(jobs)
     if bins is None:
         print("BUILD-FAILED property=%s\n%s" % (prop, err))
@@ -302,7 +317,7 @@ def main():
         nw = j.get("workers", 4)
         for w in range(nw):
             out = os.path.join(work, "j%d-w%d.json" % (ji, w))
-            cmd = [exe, "--campaign", "--prop", prop, "--seed", str(seed), "--cases", str(j["cases"]), "--worker", str(w), "--nworkers", str(nw),
+            cmd = [exe, "--campaign", "--prop", prop, "--seed", str(seed + (7919 if j.get("rest_of_configurations") else 0)), "--cases", str(j["cases"]), "--worker", str(w), "--nworkers", str(nw),
                    "--out", out, "--replay-dir", newrep, "--variant", j.get("variant", "prod"), "--time-s", str(j.get("time_s", 600)),
                    "--samples", "2" if w == 0 else "0"]
             if j.get("tag"):
